@@ -21,7 +21,7 @@ func baseWeights() map[string]int {
 var defaultWeights = map[string]int{
 	"new": 4, "newBatch": 2, "copy": 1, "add": 4, "remove": 3, "exchange": 2, "set": 1, "write": 1, "setRel": 2, "removeEntity": 3,
 	"addBatch": 1, "removeBatch": 1, "exchangeBatch": 1, "setRelBatch": 1, "removeEntities": 1,
-	"filterNew": 2, "filterReg": 1, "query": 2, "shrink": 1, "reset": 1, "stats": 1, "read": 1, "scenario": 1, "register": 1,
+	"filterNew": 2, "filterReg": 1, "query": 2, "shrink": 1, "reset": 1, "stats": 1, "read": 1, "scenario": 1, "register": 1, "regLocked": 1,
 	"batchCall": 1, "dump": 1, "loadSaved": 1, "dumpLoad": 1, "obsNew": 2, "obsReg": 1, "emit": 1, "res": 1, "qOpen": 1, "qNext": 2, "qClose": 2,
 }
 
@@ -64,7 +64,40 @@ func withGenEdge(pd *PropDef) {
 	}
 }
 
+// withScale adds the beyond-16-bit history (scale.go) to a property, on one case in every so many (it takes seconds).
+func withScale(pd *PropDef, every, rest uint64) {
+	prev := pd.Extra
+	pd.Extra = func(it *Interp, ops []Op) {
+		if prev != nil {
+			prev(it, ops)
+		}
+		if h := opsHash(ops); h%every == rest {
+			scaleCheck(h)
+			it.count("beyond-16-bit-history")
+		}
+	}
+}
+
+// withRawFlags checks the raw-copy flags of every backend's world at the end of every case (rawflags_verif.go).
+func withRawFlags(pd *PropDef) {
+	prev := pd.Extra
+	pd.Extra = func(it *Interp, ops []Op) {
+		if prev != nil {
+			prev(it, ops)
+		}
+		for _, b := range it.B {
+			checkRawFlags(b.W)
+		}
+		it.count("raw-copy-flags-checked")
+	}
+}
+
 func applyDefaults() {
+	withRawFlags(Props["C11"])
+	withScale(Props["C02"], 512, 7)
+	withScale(Props["C05"], 512, 2)
+	withScale(Props["C03"], 1024, 3)
+	withScale(Props["C04"], 1024, 5)
 	for _, id := range []string{"C01", "C11", "C15"} {
 		withShapes(Props[id])
 	}
